@@ -147,7 +147,7 @@ def run(ctx):
         ctx.notes.append("could not re-read wasmparser's 32-flag limit from the cargo registry")
     proof_ok = ctx.proof_leg(TARGETS, ["Props.C10"], THEOREMS)
 
-    nworlds = 10 if quick else 200
+    nworlds = 10 if quick else 150
     calls_per_func = 3
     worlds, rejected = gen_worlds(ctx.rng, nworlds, excl)
     units = []
